@@ -77,6 +77,7 @@ func (r *RateLimit) ServeDNS(ctx context.Context, ch *middleware.Chain) {
 	// passes through.
 	if ch.Replay() {
 		ch.Next(ctx)
+		r.storeCookieAfterReplay(ch)
 		return
 	}
 
@@ -166,6 +167,27 @@ func (r *RateLimit) ServeDNS(ctx context.Context, ch *middleware.Chain) {
 	}
 }
 
+// storeCookieAfterReplay is the post-response half of a query whose
+// inline pass handed off before anything was answered: the server cookie
+// for the client cookie it echoed becomes the limiter's expected cookie,
+// exactly when the decoded body would have stored it.
+func (r *RateLimit) storeCookieAfterReplay(ch *middleware.Chain) {
+	w := ch.Writer
+	if r.rate == 0 || w.Internal() || w.RemoteIP() == nil || w.RemoteIP().IsLoopback() {
+		return
+	}
+	echo := ch.Request.CookieEcho()
+	if echo == nil {
+		return
+	}
+	fullcookie := hex.EncodeToString(echo)
+	if len(fullcookie) < cookieSize {
+		return
+	}
+	servercookie := dnsutil.GenerateServerCookie(r.cookiesecret, w.RemoteIP().String(), fullcookie[:cookieSize])
+	r.getLimiter(w.RemoteIP()).cookie.Store(servercookie)
+}
+
 // serveWire mirrors the decoded body over parsed wire facts. The cookie
 // comparison works on the hex form option.String() produces, so a request
 // whose cookie verifies — or that has no cookie and passes the limiter —
@@ -186,7 +208,15 @@ func (r *RateLimit) serveWire(ctx context.Context, ch *middleware.Chain) {
 		if cachedcookie == "" || cachedcookie == fullcookie {
 			ch.Next(ctx)
 
-			l.cookie.Store(servercookie)
+			// The decoded body records the server cookie once the query
+			// has been answered. An inline pass that handed the query to
+			// a worker has answered nothing yet: the replay records it
+			// (storeCookieAfterReplay), so a second query arriving while
+			// the first still resolves sees the same limiter state on
+			// either path.
+			if !ch.Handoff() {
+				l.cookie.Store(servercookie)
+			}
 			return
 		}
 
